@@ -24,7 +24,7 @@ func checkC10(c *Ctx) {
 		"K6 confinement: Client fields are written only in the constructor and in ClientOpt closures; closed only through sync/atomic; exactly one go of the receive loop, not in a loop",
 		"K7 per-datagram isolation: read buffer allocated inside the loop, decoder gets b[:n], decoded message does not alias it (E3)",
 		"K8 a transaction channel is closed only under the lock together with the deletion of its entry",
-		"K9 slice-typed Client state (the hardware address used by the filter) is never returned, stored or sent: accessors hand out copies",
+		"K9 slice-typed Client state (the hardware address used by the filter) is never returned, stored or sent, and never written through (copy destination, element store, append onto a re-slice): accessors hand out copies and leave the state alone",
 		"C11-K3 (shared) cancel pairing on every exit of send/SendAndRead: a failed or finished call leaves no entry behind that later datagrams could be routed to")
 	r.NotDecided = append(r.NotDecided, "linearizability over schedules", "FIFO delivery beyond one producer goroutine and one channel per transaction",
 		"data races in code outside the lock/confinement rules (user loggers, PacketConn implementations)")
@@ -446,6 +446,129 @@ func c10RecvLoop(c *Ctx, a *clientAnchors) {
 			}), "C10-K2", key("delivery only for the client's hardware address (or none configured)"), c.P.ipos(sel),
 				"select unreachable without an edge on which ifaceHWAddr == nil or Equal is true", "a reply for another hardware address can reach delivery")
 		}
+	}
+	// K2c: no filter beyond the stated ones — from the read, every way back to the next read that avoids the
+	// delivery takes an edge on which one of the stated rejections holds (decode error, (v4) opcode is not
+	// BOOTREPLY, (v4) hardware address differs, no entry for the transaction id). Anything else drops a reply
+	// the property says is delivered.
+	{
+		okvV := ssa.Value(nil)
+		if look != nil {
+			if e := extractOf(look, 1); e != nil {
+				okvV = e
+			}
+		}
+		msgSx2 := msgSx
+		reject := func(x atomFact) bool {
+			if n, ok := nilAtom(x, isDecErr); ok && !n {
+				return true
+			}
+			if okvV != nil && x.v == okvV && !x.val {
+				return true
+			}
+			if a.short == "nclient4" {
+				if bo, isBo := x.v.(*ssa.BinOp); isBo && (bo.Op == token.EQL || bo.Op == token.NEQ) {
+					opf := "field[OpCode](" + msgSx2 + ")"
+					xs, ys := sxIn(bo.X), sxIn(bo.Y)
+					if (xs == opf && ys == "const(2)") || (ys == opf && xs == "const(2)") {
+						return ((bo.Op == token.EQL) == x.val) == false
+					}
+				}
+				if cl, isCl := x.v.(*ssa.Call); isCl && isFuncCall(cl.Common(), "bytes", "Equal") && !x.val {
+					hw := "field[ClientHWAddr](" + msgSx2 + ")"
+					if sxIn(cl.Call.Args[0]) == hw || sxIn(cl.Call.Args[1]) == hw {
+						return true
+					}
+				}
+			}
+			return false
+		}
+		rejectEdge := func(as []atomFact) bool {
+			for _, x := range as {
+				if reject(x) || calleePass(x, reject) {
+					return true
+				}
+			}
+			return false
+		}
+		rb := read.Block()
+		start := sNode{rb, -1}
+		seen := map[sNode]bool{start: true}
+		stack := []sNode{start}
+		var bad *ssa.BasicBlock
+		for len(stack) > 0 && bad == nil {
+			n := stack[len(stack)-1]
+			stack = stack[:len(stack)-1]
+			ns, as := sSuccs(n)
+			for i, sn := range ns {
+				if sn.b == sb || (as[i] != nil && rejectEdge(as[i])) {
+					continue
+				}
+				if sn.b == rb {
+					bad = n.b
+					break
+				}
+				if !seen[sn] {
+					seen[sn] = true
+					stack = append(stack, sn)
+				}
+			}
+		}
+		if bad == nil && deliverCall != nil && selIn != fn {
+			// inside the delivery helper: every path from its entry to a return passes the select, unless it tests a
+			// boolean parameter bound to the lookup's ok
+			g := selIn
+			okParam := map[ssa.Value]bool{}
+			for i, p := range g.Params {
+				if i < len(deliverCall.Call.Args) && okvV != nil && deliverCall.Call.Args[i] == okvV {
+					okParam[p] = true
+				}
+			}
+			allInstrs(g, func(i4 ssa.Instruction) {
+				if l, ok := i4.(*ssa.Lookup); ok && l.CommaOk && a.isClientFieldLoad(l.X, "pending") {
+					if e := extractOf(l, 1); e != nil {
+						okParam[e] = true
+					}
+				}
+			})
+			hs := sNode{g.Blocks[0], -1}
+			hseen := map[sNode]bool{hs: true}
+			hst := []sNode{hs}
+			for len(hst) > 0 && bad == nil {
+				n := hst[len(hst)-1]
+				hst = hst[:len(hst)-1]
+				if n.b == sel.Block() {
+					continue
+				}
+				if _, isRet := n.b.Instrs[len(n.b.Instrs)-1].(*ssa.Return); isRet {
+					bad = n.b
+					break
+				}
+				ns, as := sSuccs(n)
+				for i, sn := range ns {
+					rej := false
+					for _, x := range as[i] {
+						if okParam[x.v] && !x.val {
+							rej = true
+						}
+					}
+					if sn.b == sel.Block() || rej {
+						continue
+					}
+					if !hseen[sn] {
+						hseen[sn] = true
+						hst = append(hst, sn)
+					}
+				}
+			}
+		}
+		where := c.P.ipos(read)
+		detail := ""
+		if bad != nil {
+			where = c.P.ipos(bad.Instrs[len(bad.Instrs)-1])
+			detail = "the loop returns to the read from here without delivering and without any of the stated rejections having been taken: a reply that decodes, passes the filters and has a registered transaction is dropped"
+		}
+		r.Check(bad == nil, "C10-K2", key("no datagram is dropped for a reason other than the stated filters"), where, "split-graph walk read → next read avoiding the delivery: every path takes a rejection edge", detail)
 	}
 	// K8: close(p.ch) only with delete, under lock
 	k8fns := []*ssa.Function{fn}
@@ -903,6 +1026,34 @@ func c10Confinement(c *Ctx, a *clientAnchors) {
 					case *ssa.Send:
 						if x.X == v {
 							r.Violation("C10-K9", shortName(f)+": sends memory of Client."+fname, c.P.ipos(x), "a slice sharing memory with Client."+fname+" is sent on a channel")
+						}
+					case *ssa.IndexAddr:
+						if x.X == v {
+							for _, r2 := range *x.Referrers() {
+								if st, ok := r2.(*ssa.Store); ok && st.Addr == x {
+									r.Violation("C10-K9", shortName(f)+": writes an element of Client."+fname, c.P.ipos(st), "the client's "+fname+" is overwritten in place after construction while the receive loop reads it")
+								}
+							}
+						}
+					case *ssa.Call:
+						cc := x.Common()
+						if isBuiltinCall(cc, "copy") && len(cc.Args) == 2 && cc.Args[0] == v {
+							r.Violation("C10-K9", shortName(f)+": copies into Client."+fname, c.P.ipos(x), "Client."+fname+" is the destination of copy: the state the receive filter compares with is overwritten in place (v4: the client then accepts replies for another hardware address and drops its own)")
+						}
+						if isBuiltinCall(cc, "append") && len(cc.Args) > 0 && cc.Args[0] == v {
+							if _, viaSlice := v.(*ssa.Slice); viaSlice {
+								r.Violation("C10-K9", shortName(f)+": appends onto a re-slice of Client."+fname, c.P.ipos(x), "append onto a shortened view of Client."+fname+" writes into its backing array")
+							}
+						}
+						if sf := cc.StaticCallee(); sf != nil && !inModule(sf) {
+							k := funcKey(sf)
+							if k == "io.ReadFull" || k == "io.ReadAtLeast" || k == "crypto/rand.Read" || k == "math/rand.Read" {
+								for _, a0 := range cc.Args {
+									if a0 == v {
+										r.Violation("C10-K9", shortName(f)+": fills Client."+fname+" through "+k, c.P.ipos(x), "Client."+fname+" is overwritten in place after construction")
+									}
+								}
+							}
 						}
 					}
 				}
